@@ -2,7 +2,7 @@
 # Re-run every seeded change in /verif/seeded against its check (apply to /repo, run quick check, undo).
 # Prints one line per seed: <seed> caught|MISSED.  Not a MANIFEST check; used to demonstrate the binding.
 cd /verif || exit 2
-for d in seeded/*/; do
+for d in seeded/C*/; do
   sid=$(basename "$d")
   id=${sid%-*}
   out=$(selftest/try_patch.sh "/verif/$d/patch.diff" "$id" 2>&1 | tail -1)
